@@ -482,6 +482,8 @@ def check_reach(agg: dict, tier: str):
     st = agg["stats"]
     need = ["cond_wait", "lock_contended", "reach_oversized_admitted", "reach_two_tensors_materialised_concurrently", "outcome_injected_fault_reached_caller", "outcome_returned", "cfg_sharded", "cfg_shared_tensor"]
     missing = [k for k in need if not st.get(k)]
+    if st.get("reference_raised", 0) > 0.2 * max(1, agg["runs"]):
+        return [f"fault-free serial reference save raised in {st.get('reference_raised')} of {agg['runs']} runs"]
     return missing if (tier == "thorough" or agg["runs"] > 500) else []
 
 
